@@ -204,7 +204,7 @@ def run_shard(ctx):
             ctx.fail(b, w, case)
 
     n = P["n_cases"]
-    forces = ["scan", "vmap", "cond", "vdist", "call", None]
+    forces = ["scan", "vmap", "indicator", "cond", "vdist", "call", None, "indicator"]
     drive(ctx, cases(False, forces[ctx.shard % len(forces)]), n - n // 3, one, "cont")
     drive(ctx, cases(True, forces[(ctx.shard + 1) % len(forces)]), n // 3, one, "disc")
 
